@@ -84,7 +84,8 @@ let stmt_of_line (l : string) : stmt option =
        (match opt_expr r with (a, []) -> Some (SMethod (rc, c, a)) | _ -> raise (Bad l))
      | [] -> raise (Bad l))
   | "C" :: c :: r ->
-    let c = (match c with "goto" -> CGoto | "thread" -> CThread | "waitthread" -> CWaitThread | "wait" -> CWait | "end" -> CEnd | s -> raise (Bad s)) in
+    let c = (match c with "goto" -> CGoto | "thread" -> CThread | "waitthread" -> CWaitThread | "wait" -> CWait | "end" -> CEnd
+                       | "killd" | "killr" | "killi" | "killdv" | "killrv" | "killiv" -> CKill | s -> raise (Bad s)) in
     (match opt_expr r with (a, []) -> Some (SCmd (c, a)) | _ -> raise (Bad l))
   | _ -> raise (Bad l)
 
